@@ -361,7 +361,10 @@ Definition billing_class (elec : bool) (inf : inferred) (rows : list reading) (b
     | Some g =>
       if negb (is_billing g) then Unsupported
       else
-        let end_date := floor_boundary bs (last_stamp rows) in
+        (* end_date = index.max().replace(hour = 0): the local midnight of the last row's day, KEEPING the minutes
+           of that row (a frame whose last row is stamped hh:30 closes the final period at 00:30) *)
+        let fb := floor_boundary bs (last_stamp rows) in
+        let end_date := fb + (last_stamp rows - fb) mod 60 in
         (* meter_series[end_date + 1 day] = NaN : 24 elapsed hours, not a calendar day *)
         let rs' := rs ++ [(end_date + 1440, None)] in
         match clean_billing g rs' with
